@@ -137,7 +137,11 @@ class Kernel(object):
                 lat = p.behav.get("kill_lat", 0)
                 self._doom(p, self.now + lat, wstat_sig(sig))
             elif sig in (signal.SIGHUP, signal.SIGUSR1, signal.SIGUSR2, signal.SIGWINCH, signal.SIGCHLD, signal.SIGCONT):
+                if sig == signal.SIGCONT:
+                    p.stopped = None
                 pass                                  # workers handle / ignore these
+            elif sig in (signal.SIGSTOP, signal.SIGTSTP, signal.SIGTTIN, signal.SIGTTOU):
+                p.stopped = sig                       # stopped, not ended: reported to a waitpid(WUNTRACED) only
             else:
                 t = p.behav.get("term", ["obey", 0])
                 if t[0] == "obey":
@@ -149,14 +153,17 @@ class Kernel(object):
         if p.doom is None or deadline < p.doom[0]:
             p.doom = (deadline, status)
 
-    def waitpid(self, pid):
-        """waitpid(pid, WNOHANG) for pid > 0 or -1; returns (pid, status) / (0, 0) / raises ECHILD"""
+    def waitpid(self, pid, flags=None):
+        """waitpid(pid, WNOHANG) for pid > 0 or -1; returns (pid, status) / (0, 0) / raises ECHILD.  The daemon
+        never asks for stopped children; a caller that does (WUNTRACED) is told about each stop once, as POSIX says"""
         self.tick()
+        untraced = bool(flags is not None and flags & os.WUNTRACED)
         if pid == -1:
             kids = [p for p in self.procs.values() if p.ppid == 0 and p.state != "g"]
             if not kids:
                 raise OSError(_errno.ECHILD, "No child processes")
-            zs = sorted(p.pid for p in kids if p.state == "z")
+            zs = sorted(p.pid for p in kids if p.state == "z" or
+                        (untraced and p.state == "r" and getattr(p, "stopped", None)))
             if not zs:
                 return 0, 0
             pid = zs[0]
@@ -164,6 +171,10 @@ class Kernel(object):
         if p is None or p.ppid != 0 or p.state == "g":
             raise OSError(_errno.ECHILD, "No child processes")
         if p.state == "r":
+            if untraced and getattr(p, "stopped", None):
+                sig, p.stopped = p.stopped, None
+                self.out("o waitstopped %d %d" % (pid, sig))
+                return pid, (sig << 8) | 0x7f
             return 0, 0
         p.state = "g"
         self.out("o reap %d %d" % (pid, p.status))
@@ -306,7 +317,7 @@ class _FakeOs(object):
         return getattr(os, name)
 
     def waitpid(self, pid, flags):
-        return self._k.waitpid(pid)
+        return self._k.waitpid(pid, flags)
 
 
 class _FakeTime(object):
